@@ -504,8 +504,24 @@ def run_extract_job(job, model):
         m_esc = [e for e in m_eff if not _inside(e[1], DEST)]
         res["model_escape"] = bool(m_esc)
         if esc_events or hard:
+            # more links with some target text were really created than the archive has link members with that text whose
+            # target, taken lexically from the place of the member, lies inside the destination: a link that is invalid on
+            # its own was accepted -- a different defect from the known chain of individually valid links
+            from collections import Counter
+            created = Counter(v_[1] for k_, p_, ok_ in events for v_ in [after.get(p_)]
+                              if k_ == "symlink" and ok_ and v_ and v_[0] == "l")
+            valid = Counter()
+            for e_ in entries:
+                if e_["kind"] == "l" and not e_["empty"]:
+                    n_ = e_["name"] if e_["name"].startswith("/") else DEST + "/" + e_["name"]
+                    t_ = e_["data"] if e_["data"].startswith("/") else os.path.join(os.path.dirname(os.path.normpath(n_)), e_["data"])
+                    if _inside("/" + os.path.normpath(t_).lstrip("/"), DEST):
+                        valid[e_["data"]] += 1
+            bad_links = [[t_, created[t_], valid[t_]] for t_ in created if created[t_] > valid[t_]]
             res["escape"] = {"events": esc_events[:8], "changed": hard[:8], "touched_dirs": soft[:8],
-                             "via": classify(entries, dest)}
+                             "via": "invalid-link-created" if bad_links else classify(entries, dest)}
+            if bad_links:
+                res["escape"]["invalid_links"] = bad_links[:4]
         res["neff"] = len(real_eff)
         out.append(res)
     return out
@@ -807,7 +823,23 @@ N3 = ["a", "b", "a/b", "a/a", "a/b/a", "../dest/b", ""]
 NQ3 = ["a", "a/b", "a/b/a", "b"]                       # quick tier: every ordered triple over these
 KQ3 = [("f", "DATA", False), ("d", "", True), ("l", ".", False), ("l", "..", False), ("l", "a", False)]
 LONG_NAMES = ["../b/../dest", "../b/../dest/a", "a/../../dest/b", "a/b/../../..", "../../jail/dest/a", "b/../../dest",
-              "../dest/../dest/a", ".//jail/dest/../out/a", "./../dest/a", "a/../../b/../dest/a"]
+              "../dest/../dest/a", ".//jail/dest/../out/a", "./../dest/a", "a/../../b/../dest/a",
+              # siblings of the destination whose path text starts with the destination's text
+              "../dest_x", "../dest_x/f", "/jail/dest_x/f", ".//jail/dest_x/f", "../destx/f", "a/../../dest.bak/f"]
+# hand-made sequences: a link whose target is fine at its depth, then a shallower link with the very same target text that climbs
+# out, then a member named through the second link; links to siblings of the destination with a common text prefix
+TEMPLATES = [
+    [("a/k", "l", ".."), ("k2", "l", ".."), ("k2/x", "f", "DATA")],
+    [("a/b/k", "l", "../.."), ("a/k2", "l", "../.."), ("a/k2/x", "f", "DATA")],
+    [("a/k", "l", ".."), ("a/k/k3", "l", ".."), ("a/k/k3/x", "f", "DATA")],
+    [("a/b", "l", ".."), ("b", "l", ".."), ("b/a", "f", "DATA")],
+    [("k2", "l", ".."), ("a/k", "l", ".."), ("k2/x", "f", "DATA")],
+    [("a/k", "l", "../b"), ("k2", "l", "../b"), ("k2/x", "f", "DATA")],
+    [("l", "l", "../dest_x"), ("l/x", "f", "DATA")],
+    [("l", "l", "/jail/dest_x"), ("l/x", "f", "DATA")],
+    [("a/l", "l", "../../dest_x"), ("a/l/x", "f", "DATA")],
+    [("d", "d", ""), ("d/l", "l", "../../destx"), ("d/l/x", "f", "DATA")],
+]
 T3 = [".", "..", "a", "a/..", "@prev"]
 ALL_VARIANTS = [(d, h, i) for d in ("abs", "rel", "none") for h in ("stream", "path") for i in ("empty", "pop")]
 ROT = [("none", "stream", "empty"), ("rel", "path", "empty"), ("abs", "stream", "pop"), ("rel2", "stream", "empty"),
@@ -828,6 +860,10 @@ def gen_jobs(tier, rng):
         for (k, d, e) in kinds(["..", "a"]):
             jobs.append({"type": "extract", "entries": mk_entries([(n, k, d, e)]), "cuts": [],
                          "variants": [("abs", "stream", "empty"), ("none", "stream", "empty"), ("rel", "path", "pop")], "n": 1})
+    for tpl in TEMPLATES:
+        slots = [(n, k, ("" if k == "d" else d), k == "d") for (n, k, d) in tpl]
+        for vs in (ALL_VARIANTS[:6], ALL_VARIANTS[6:]):
+            jobs.append({"type": "extract", "entries": mk_entries(slots), "cuts": [], "variants": list(vs), "n": len(slots)})
     # ---- two entries, all ordered pairs
     opts2 = slot_options(N2, T2)
     i = 0
